@@ -840,6 +840,35 @@ class Run:
                     self.queued_ops = [{'k': rng.choice(['flush', 'commit']), 'noreads': True}] + steps + tail
                     self.count('gen:partial-row-move:created')
                     return cr
+        # to_dict of an owner after uncommitted creates / updates / deletes of RELATED objects, with the owner's collection / one-to-one
+        # attribute loaded (a first to_dict loads it) or not (fresh session): no read phase in between, so nothing else flushes
+        if 0.32 <= r < 0.37 and live:
+            cands = [(oid, key) for oid in live for key in w.ent_rel[sh.objs[oid]['ent']] if sh.objs[oid]['pk'] is not None or oid in self.h]
+            if cands:
+                oid, key = rng.choice(cands); side = w.sides[key]; rkey = w.rev(key); rside = w.sides[rkey]
+                seq = []
+                if rng.random() < 0.3: seq.append({'k': 'end_ok', 'noreads': True})
+                else: seq.append({'k': 'to_dict', 'o': oid, 'withc': True, 'noreads': True})
+                c = rng.random()
+                cur = sorted(x for x in sh.partners(oid, key) if x in self.usable())
+                if c < 0.55 or not cur:
+                    cr = self.gen_create(rs, e=rside['ent'])
+                    cr['colls'] = {}; cr['noreads'] = True
+                    if not rside['coll'] and rng.random() < 0.6:
+                        cr['refs'] = dict(cr['refs'], **{rside['name']: oid}); seq.append(cr)
+                    else:
+                        cr['refs'] = {n: v for n, v in cr['refs'].items() if n != rside['name']}
+                        seq.append(cr)
+                        if side['coll']: seq.append({'k': 'coll_add', 'o': oid, 'key': list(key), 'items': [cr['oid']], 'via': rng.choice(['list', 'single', 'op']), 'noreads': True})
+                        else: seq.append({'k': 'set_ref', 'o': oid, 'key': list(key), 'v': cr['oid'], 'noreads': True})
+                elif c < 0.8: seq.append({'k': 'delete', 'o': rng.choice(cur), 'noreads': True})
+                else:
+                    x = rng.choice(cur); sc = rng.choice(w.schema['ents'][sh.objs[x]['ent']]['scalars'])
+                    seq.append({'k': 'set_scalar', 'o': x, 'a': sc['name'], 'v': rng.choice([0, 1, 2, 3]), 'noreads': True})
+                seq.append({'k': 'to_dict', 'o': oid, 'withc': rng.random() < 0.75, 'noreads': True})
+                self.queued_ops = seq[1:]
+                self.count('gen:to_dict-after-related-change')
+                return dict(seq[0], rs=rs)
         # a call that FAILS and is undone after pending (unflushed) collection changes, then the program goes on and commits: a refused
         # delete (a Required reference without cascade points at the object: ConstraintError after the collections were already cleared
         # as nested calls), Entity.set(coll=[..], u0=<value another cached object holds>) failing midway (CacheIndexError), a constructor
@@ -1104,6 +1133,7 @@ class Run:
         if k == 'create': self.next_oid = max(self.next_oid, op['oid'] + 1)
         self.ops.append(op)
         if k == 'coll_in': return self.membership_test(op)
+        if k == 'to_dict': return self.to_dict_test(op)
         before = self.sh.clone()
         mark = self.mark()
         c0 = self.cache()
@@ -1159,6 +1189,64 @@ class Run:
         self.last_coll_op = (op.get('o'), tuple(op['key']) if 'key' in op else None, k) if k.startswith('coll_') else getattr(self, 'last_coll_op', None)
         if k.startswith('coll_'): self.coll_hist.setdefault((op['o'], tuple(op['key'])), []).append(k)
         if self.do_reads and not op.get('noreads') and self.rrng.random() < 0.4: self.reads()
+
+    def to_dict_check(self, oid, obj, withc, rng, rd):
+        """obj.to_dict(..) in one of its variants (with_collections / related_objects / only / exclude): the result must be the one the
+        same call gives after an explicit flush() - to_dict promises to see the session's pending changes, also those of RELATED objects
+        (a new related object with a generated key has its key, not None) - and that must be what the program has (shadow)"""
+        w = self.w; sh = self.sh; e = sh.objs[oid]['ent']; ed2 = w.schema['ents'][e]
+        collnames = {w.sides[k3]['name'] for k3 in w.ent_rel[e] if w.sides[k3]['coll']}
+        refnames = {w.sides[k3]['name'] for k3 in w.ent_rel[e] if not w.sides[k3]['coll']}
+        names = (['p1', 'p2'] if ed2['pk'] == 'composite' else ['id']) + [s_['name'] for s_ in ed2['scalars']] + sorted(refnames) + (sorted(collnames) if withc else [])
+        related = rng.random() < 0.3
+        kw = {'with_collections': withc}
+        if related: kw['related_objects'] = True
+        sel = rng.random()
+        if sel < 0.2: kw['only'] = sorted(rng.sample(names, rng.randrange(1, len(names) + 1)))
+        elif sel < 0.4: kw['exclude'] = sorted(rng.sample(names, rng.randrange(0, len(names))))
+        keep = [n for n in names if (n in kw['only'] if 'only' in kw else n not in kw.get('exclude', ()))]
+        def pk_now(x):
+            # the key of a related object AS IT IS NOW (None for an object that has not been inserted yet)
+            return x._pkval_ if isinstance(x, core.Entity) else x
+        def norm(d):
+            out = {}
+            for k2, v2 in d.items():
+                if k2 in collnames: out[k2] = sorted(repr(pk_now(x)) for x in v2)
+                elif k2 in refnames: out[k2] = pk_now(v2)
+                else: out[k2] = v2
+            return out
+        def expd():
+            o = sh.objs[oid]; d = {}
+            if ed2['pk'] == 'composite': d['p1'], d['p2'] = o['pk']
+            else: d['id'] = o['pk']
+            for s_ in ed2['scalars']: d[s_['name']] = o['vals'][s_['name']]
+            for key in w.ent_rel[e]:
+                side = w.sides[key]
+                if side['coll']:
+                    if withc: d[side['name']] = sorted(repr(sh.objs[y]['pk']) for y in sh.partners(oid, key))
+                else:
+                    v = o['vals'][side['name']]
+                    d[side['name']] = None if v is None else sh.objs[v]['pk']
+            return {k2: v2 for k2, v2 in d.items() if k2 in keep}
+        def call():
+            first = norm(obj.to_dict(**kw))
+            flush()                                   # explicit: now every pending change of every object is in the database
+            again = norm(obj.to_dict(**kw))
+            self.learn_pks()
+            exp = expd()
+            if first == again == exp: return True
+            return {'to_dict': first, 'after-flush': again, 'program-has': exp, 'kwargs': {k2: v2 for k2, v2 in kw.items()}}
+        variant = ('-collections' if withc else '') + ('-related' if related else '') + ('-only' if 'only' in kw else '-exclude' if 'exclude' in kw else '')
+        self.count('to_dict-variant:' + (variant or '-plain'))
+        rd('to_dict' + ('-collections' if withc else ''), 'object', call, True)
+
+    def to_dict_test(self, op):
+        """`obj.to_dict(..)` as a call of its own (no read phase around it)"""
+        import random as _r
+        obj = self.resolve(op['o'])
+        if obj is None or self.stop: return
+        self.count('op:to_dict')
+        self.to_dict_check(op['o'], obj, bool(op.get('withc')), _r.Random(op.get('rs', 0)), self.rd)
 
     def membership_test(self, op):
         """`x in obj.coll` as a call of its own (no read phase around it); for a many-to-many collection of an in-fragment schema also
@@ -1533,33 +1621,7 @@ class Run:
                 oid = rng.choice(us); obj = rs(oid)
                 if obj is None or self.stop: continue
                 withc = form == 'to_dict_coll'
-                collnames = {w.sides[k3]['name'] for k3 in w.ent_rel[e] if w.sides[k3]['coll']}
-                def norm(d):
-                    out = {}
-                    for k2, v2 in d.items():
-                        out[k2] = sorted(map(repr, v2)) if k2 in collnames else v2
-                    return out
-                def expd():
-                    o = sh.objs[oid]; d = {}
-                    ed2 = w.schema['ents'][e]
-                    if ed2['pk'] == 'composite': d['p1'], d['p2'] = o['pk']
-                    else: d['id'] = o['pk']
-                    for s in ed2['scalars']: d[s['name']] = o['vals'][s['name']]
-                    for key in w.ent_rel[e]:
-                        side = w.sides[key]
-                        if side['coll']:
-                            if withc: d[side['name']] = sorted(repr(sh.objs[y]['pk']) for y in sh.partners(oid, key))
-                        else:
-                            v = o['vals'][side['name']]
-                            d[side['name']] = None if v is None else sh.objs[v]['pk']
-                    return d
-                # to_dict flushes first, so every primary key is known when the expectation is built afterwards
-                holder = {}
-                def call():
-                    holder['d'] = norm(obj.to_dict(with_collections=withc))
-                    self.learn_pks()
-                    return holder['d'] == expd()
-                self_rd('to_dict' + ('-collections' if withc else ''), 'object', call, True)
+                self.to_dict_check(oid, obj, withc, rng, self_rd)
                 if self.findings and self.findings[-1]['key'].startswith('to_dict') and 'd' in holder:
                     self.findings[-1]['observed'] = holder['d']; self.findings[-1]['expected'] = expd()
 
